@@ -1,6 +1,6 @@
 #!/bin/bash
 # copy a sub-agent's deliverables from the scratch area into /verif/seeded/<P>-m<k>/ at once (scratch may vanish)
-for P in "$@"; do for k in 5 6 7 8 9 10; do
+for P in "$@"; do for k in 5 6 7 8 9 10 11 12; do
   [ -f /tmp/wt/$P.mut$k.diff ] || continue
   d=/verif/seeded/$P-m$k; [ -f $d/patch.diff ] && continue; mkdir -p $d
   cp /tmp/wt/$P.mut$k.diff $d/patch.diff; cp /tmp/wt/$P.mut${k}_demo.py $d/demo.py; cp /tmp/wt/$P.mut$k.txt $d/desc.txt 2>/dev/null
